@@ -188,6 +188,7 @@ const caseTail = "Definition M := Eval vm_compute in mismatches check_case cases
 	"Definition NNH_NOSERVER := Eval vm_compute in (n_nh_resp 1 true cases + n_nh_resp 1 false cases : Z).\nPrint NNH_NOSERVER.\n" +
 	"Definition NNH_USER := Eval vm_compute in (n_nh_resp 2 false cases : Z).\nPrint NNH_USER.\n" +
 	"Definition NNH_AUTH := Eval vm_compute in (n_nh_resp 3 false cases : Z).\nPrint NNH_AUTH.\n" +
+	"Definition NNH_UNDELIVERED := Eval vm_compute in (n_nh_undelivered cases : Z).\nPrint NNH_UNDELIVERED.\n" +
 	"Definition NSYS_QUEUED := Eval vm_compute in (n_sys_vis 0 cases : Z).\nPrint NSYS_QUEUED.\n" +
 	"Definition NSYS_AUTH := Eval vm_compute in (n_sys_vis 3 cases : Z).\nPrint NSYS_AUTH.\n" +
 	"Definition NSYS_USER := Eval vm_compute in (n_sys_vis 4 cases : Z).\nPrint NSYS_USER.\n" +
